@@ -38,42 +38,44 @@ REGISTRY = dict(
 CFG = """INIT Init
 NEXT Next
 CONSTANTS
-  MaxFiles = %(files)d
-  Schemes = {%(schemes)s}
-  MaxChain = %(chain)d
-  DKinds = {%(dkinds)s}
-  RMode = "%(rmode)s"
-  SecPer = %(secper)d
+  Plans <- MCPlans
   Seed = %(seed)d
-  PermMode = "%(perm)s"
   WithNeg = %(neg)s
-INVARIANTS TypeOK BRefinesA OrderIndependent Terminates Emit
+INVARIANTS TypeOK BRefinesA OrderIndependent Terminates%(extra_inv)s Emit
 CHECK_DEADLOCK FALSE
+"""
+
+MC = """---------------------------- MODULE MC_ResolveGen ----------------------------
+EXTENDS ResolveGen
+MCPlans == {%s}
+=============================================================================
 """
 
 
 def q(xs):
-    return ", ".join('"%s"' % x for x in xs)
+    return "{" + ", ".join('"%s"' % x for x in xs) + "}"
+
+
+def plan(files, schemes, chain, dkinds, rmode, secper, perm):
+    return ('[files |-> %d, schemes |-> %s, chain |-> %d, dkinds |-> %s, rmode |-> "%s", secper |-> %d, perm |-> "%s"]'
+            % (files, q(schemes), chain, q(dkinds), rmode, secper, perm))
 
 
 ALLK = ["enum", "struct", "union", "exception", "i32", "string", "list", "map"]
 
-# each entry is one TLC run (kept apart so that no run's output gets too large)
+# each entry is one TLC run: (plans, with the hand-written programs, also check the denotation table against the definitions)
 TIERS = {
     "quick": [
-        dict(files=4, schemes=q(["std"]), chain=2, dkinds=q(["enum"]), rmode="main", secper=1, perm="rev", neg="TRUE"),
-        dict(files=3, schemes=q(["same23", "dotted"]), chain=2, dkinds=q(["enum", "struct"]), rmode="main", secper=1,
-             perm="rev", neg="FALSE"),
-        dict(files=2, schemes=q(["std"]), chain=4, dkinds=q(ALLK), rmode="all", secper=2, perm="light", neg="FALSE"),
+        ([plan(4, ["std"], 2, ["enum"], "main", 1, "rev"),
+          plan(3, ["same23", "dotted"], 2, ["enum", "struct"], "main", 1, "rev"),
+          plan(2, ["std"], 4, ALLK, "all", 1, "light")], True, False),
     ],
     "thorough": [
-        dict(files=4, schemes=q(["std"]), chain=3, dkinds=q(["enum", "struct"]), rmode="main", secper=2, perm="light", neg="TRUE"),
-        dict(files=4, schemes=q(["same23", "same34", "dotted"]), chain=2, dkinds=q(["enum", "union"]), rmode="main", secper=2,
-             perm="rev", neg="FALSE"),
-        dict(files=3, schemes=q(["std", "same23"]), chain=4, dkinds=q(ALLK), rmode="all", secper=3, perm="light", neg="FALSE"),
-        dict(files=4, schemes=q(["std"]), chain=4, dkinds=q(["enum"]), rmode="main", secper=1, perm="rev", neg="FALSE"),
-        dict(files=2, schemes=q(["std"]), chain=3, dkinds=q(["enum", "exception", "map"]), rmode="all", secper=8, perm="full",
-             neg="FALSE"),
+        ([plan(4, ["std"], 3, ["enum", "struct"], "main", 2, "light")], True, True),
+        ([plan(4, ["same23", "same34", "dotted"], 2, ["enum", "union"], "main", 2, "rev")], False, False),
+        ([plan(3, ["std", "same23"], 4, ALLK, "all", 3, "light")], False, False),
+        ([plan(4, ["std"], 4, ["enum"], "main", 1, "rev"),
+          plan(2, ["std"], 3, ["enum", "exception", "map"], "all", 8, "full")], False, False),
     ],
 }
 
@@ -228,6 +230,8 @@ def judge(prog, exp, obs):
         if r not in n["al"]:
             bad.append(("extends:" + ("bound-a-name-that-denotes-nothing" if not n["al"] else "reference"), key, r, n["al"]))
     for key, o in nodes.items():
+        if o["k"] == "value" and o.get("ident") in ("true", "false") and o.get("extra") is None:
+            continue          # literals, not references
         if o["k"] in ("type", "value", "extends") and key not in seen:
             bad.append(("unexpected-node", key, o, None))
     # includes
@@ -316,9 +320,9 @@ def case_class(meta, perm, status):
     if meta["fam"] == "hand":
         return "hand:%s perm=%s" % (meta["name"], perm.split(":")[0])
     sec = meta["sec"]
-    return "nf=%d e=%d %s R=%d k=%d %s x=%d decoy=%d pfx=%s svc=%s ord=%s perm=%s %s" % (
+    return "nf=%d e=%d %s R=%d k=%d %s x=%d decoy=%d pfx=%s svc=%s ord=%s kr=%d perm=%s %s" % (
         meta["nf"], len(meta["E"]), meta["scheme"], meta["R"], meta["k"], meta["dk"], crossings(meta),
-        int(sec["decoy"]), sec["pfx"], sec["svc"], sec["ord"], perm.split(":")[0] + ":" + perm.split(":")[-1], status)
+        int(sec["decoy"]), sec["pfx"], sec["svc"], sec["ord"], int(sec["kr"]), perm.split(":")[0] + ":" + perm.split(":")[-1], status)
 
 
 def obs_key(obs):
@@ -328,7 +332,54 @@ def obs_key(obs):
 
 
 # ------------------------------------------------------------------------------------------ the check
-def evaluate(ctx, harness, cases, tag, stats):
+DEF_DEFAULTS = {"ty": {"n": "none"}, "val": {"t": "none"}, "vals": [], "fields": [], "ext": {"n": "none"}, "fns": []}
+
+
+def full_prog(prog):
+    """the emitted program has per-kind definition records; the operators of Resolve.tla want the uniform shape"""
+    return {"files": [dict(f, defs=[dict(DEF_DEFAULTS, **d) for d in f["defs"]]) for f in prog["files"]]}
+
+
+def trace_row(prog, o):
+    """one line of traces.ndjson for spec/Resolve/Trace_Resolve.tla"""
+    prog = full_prog(prog)
+    types, ids, exts, used = {}, {}, {}, {}
+    for key, n in o["nodes"].items():
+        if n["k"] == "type":
+            types[key] = {"cat": n["cat"], "td": n["td"], "ref": ref_of(n)}
+        elif n["k"] == "value":
+            if n.get("extra") is not None:
+                ids[key] = n["extra"]
+        elif n["k"] == "extends":
+            exts[key] = ref_of(n)
+        elif n["k"] == "include":
+            used[key] = bool(n["used"])
+    return {"prog": prog, "types": types, "ids": ids, "exts": exts, "used": used}
+
+
+def tlc_validate(ctx, rows, verdicts, tag):
+    """TLC judges real observations with the recursive definitions of layer A; must agree with the comparison done here"""
+    CH = 400
+    for off in range(0, len(rows), CH):
+        chunk = rows[off:off + CH]
+        f = ctx.path("traces-%s-%d.ndjson" % (tag, off))
+        vlib.write_ndjson(f, chunk)
+        r = ctx.tlc("Resolve", "Trace_Resolve", "Trace_Resolve", files={"traces.ndjson": f}, timeout=3000,
+                    label="Trace_Resolve[%s+%d]" % (tag, off))
+        acc = {int(x[4:]) - 1 for x in r["lines"] if x.startswith("ACC ")}
+        os.remove(f)
+        for i in range(len(chunk)):
+            if (i in acc) != verdicts[off + i]:
+                raise vlib.MachineryError(
+                    "TLC (Trace_Resolve, definitions of layer A) %s an observation that the comparison with the emitted "
+                    "expectation %s: %s" % ("accepts" if i in acc else "rejects", "rejects" if i in acc else "accepts",
+                                            json.dumps(chunk[i])[:1500]))
+        ctx.traces_validated += len(chunk)
+
+
+def evaluate(ctx, harness, cases, tag, stats, sample_p):
+    rng = random.Random(ctx.seed * 7919 + len(cases))
+    trows, tverd = [], []
     bases = {}
     for c in cases:
         if c["perm"] == "id":
@@ -372,8 +423,9 @@ def evaluate(ctx, harness, cases, tag, stats):
             # the real front end rejects
             if status == "unique":
                 stats["accepts:real-rejects-what-A-accepts"] += 1
-                stats.setdefault("examples", {}).setdefault("accepts", {"meta": meta, "perm": c["perm"], "stage": o["stage"],
-                                                                        "err": o.get("err", "")[:300], "files": row["files"]})
+                ek = "accepts" if "accepts" not in stats.get("examples", {}) else "accepts: " + o.get("err", "")[:48]
+                stats.setdefault("examples", {}).setdefault(ek, {"meta": meta, "perm": c["perm"], "stage": o["stage"],
+                                                                 "err": o.get("err", "")[:300], "files": row["files"]})
             else:
                 stats["rejected-" + status] += 1
             # order independence also covers rejection
@@ -394,6 +446,9 @@ def evaluate(ctx, harness, cases, tag, stats):
             rbad = {b[1] for b in bad}
             stats["b_candidates"] += len(bbad)
             stats["b_candidates_reproduced"] += len(bbad & rbad)
+        if (bad and sum(1 for v in tverd if not v) < 60) or rng.random() < sample_p:
+            trows.append(trace_row(prog, o))
+            tverd.append(not bad)
         kinds = {}
         for kind, key, got, al in bad:
             kinds.setdefault(kind, []).append((key, got, al))
@@ -418,6 +473,7 @@ def evaluate(ctx, harness, cases, tag, stats):
             k0 = exp["ids"][0]["key"] if exp["ids"] else exp["types"][0]["key"]
             ctx.sample({"meta": meta, "main_file": row["files"][row["main"]], "node": k0, "stored": o["nodes"].get(k0),
                         "allowed": (exp["ids"][0] if exp["ids"] else exp["types"][0])["al"]})
+    tlc_validate(ctx, trows, tverd, tag)
 
 
 def vacuity(cases):
@@ -431,9 +487,8 @@ def vacuity(cases):
         "permutation": lambda c: c["perm"] != "id",
         "ambiguous program": lambda c: c.get("status") == "ambiguous",
         "program layer A rejects": lambda c: c.get("status") == "undefined",
-        "base service in an include": lambda c: c["perm"] == "id" and any(n["al"] and n["al"][0]["idx"] >= 0 for n in c["exp"]["exts"]),
-        "enum value through a typedef of an include": lambda c: c["perm"] == "id" and any(
-            len(n["al"]) >= 1 and any(a["isEnum"] and a["idx"] >= 0 for a in n["al"]) for n in c["exp"]["ids"]),
+        "base service in an include": lambda c: c["ext_inc"],
+        "enum value bound through an include": lambda c: c["enum_inc"],
     }
     missing = [k for k, fn in need.items() if not any(fn(c) for c in cases)]
     if missing:
@@ -441,7 +496,7 @@ def vacuity(cases):
     steps = {}
     for c in cases:
         k = json.dumps(c["meta"], sort_keys=True)
-        steps.setdefault(k, set()).add(c["b"]["steps"] if c["perm"] == "id" else c["steps"])
+        steps.setdefault(k, set()).add(c["steps"])
     if not any(len(v) > 1 for v in steps.values()):
         raise vlib.MachineryError("vacuous universe: no program whose permutations need a different number of typedef rounds")
 
@@ -494,35 +549,70 @@ def replay(ctx, harness, rp):
     return ctx.finish("replay of one program")
 
 
+def generate(ctx, cfg, mc, label):
+    """TLC run of the generator.  With VERIF_C05_CACHE=1 (development aid for repeated runs against mutants; the
+    generation does not depend on /repo) the emitted cases are kept in /verif/.tlacache keyed by the spec text."""
+    cache = None
+    if os.environ.get("VERIF_C05_CACHE"):
+        import gzip
+        import hashlib
+        h = hashlib.sha1()
+        d = os.path.join(vlib.VERIF, "spec", "Resolve")
+        for f in sorted(os.listdir(d)):
+            if f.endswith(".tla"):
+                h.update(open(os.path.join(d, f), "rb").read())
+        h.update((cfg + mc).encode())
+        os.makedirs(os.path.join(vlib.VERIF, ".tlacache"), exist_ok=True)
+        cache = os.path.join(vlib.VERIF, ".tlacache", "c05-%s.json.gz" % h.hexdigest()[:16])
+        if os.path.exists(cache):
+            with gzip.open(cache, "rt") as fh:
+                data = json.load(fh)
+            ctx.states += data["distinct"]
+            ctx.transitions += data["generated"]
+            ctx.tlc_runs.append({"label": label + " (cached)", "generated": data["generated"], "distinct": data["distinct"],
+                                 "depth": data.get("depth"), "wall_s": 0, "ok": True, "violated": None})
+            vlib.log("TLC %s: cached, %d cases" % (label, len(data["cases"])))
+            return data["cases"]
+    r = ctx.tlc("Resolve", "MC_ResolveGen", "gen.cfg", files={"gen.cfg": cfg, "MC_ResolveGen.tla": mc}, timeout=3300, label=label)
+    cases = ctx.tlc_cases(r)
+    if cache:
+        import gzip
+        with gzip.open(cache, "wt") as fh:
+            json.dump({"cases": cases, "generated": r.get("generated", 0), "distinct": r.get("distinct", 0), "depth": r.get("depth")}, fh)
+    r.clear()
+    return cases
+
+
 def run(ctx, args):
     harness = ctx.build_harness("inproc")
     stats = D()
     if args.replay:
         return replay(ctx, harness, json.load(open(args.replay)))
-    allcases = []
-    for k, t in enumerate(TIERS[ctx.tier]):
-        cfg = CFG % dict(t, seed=ctx.seed)
-        r = ctx.tlc("Resolve", "ResolveGen", "gen.cfg", files={"gen.cfg": cfg}, timeout=3000, label="ResolveGen[%d]" % k)
-        cases = ctx.tlc_cases(r)
-        r["lines"] = None
-        r["out"] = None
+    seen_for_vacuity = []
+    for k, (plans, neg, symcheck) in enumerate(TIERS[ctx.tier]):
+        cfg = CFG % dict(seed=ctx.seed, neg="TRUE" if neg else "FALSE", extra_inv=" TableAgrees" if symcheck else "")
+        cases = generate(ctx, cfg, MC % ", ".join(plans), "ResolveGen[%d]" % k)
         if not cases:
             raise vlib.MachineryError("TLC emitted no cases")
-        allcases.append(cases)
-    vacuity([c for cs in allcases for c in cs])
-    for k, cases in enumerate(allcases):
-        evaluate(ctx, harness, cases, "u%d" % k, stats)
+        for c in cases:      # what the vacuity test needs, without keeping the programs
+            seen_for_vacuity.append({"meta": c["meta"], "perm": c["perm"], "status": c.get("status"),
+                                     "steps": c["b"]["steps"] if c["perm"] == "id" else c["steps"],
+                                     "ext_inc": c["perm"] == "id" and any(n["al"] and n["al"][0]["idx"] >= 0 for n in c["exp"]["exts"]),
+                                     "enum_inc": c["perm"] == "id" and any(
+                                         any(a["isEnum"] and a["idx"] >= 0 for a in n["al"]) for n in c["exp"]["ids"])})
+        evaluate(ctx, harness, cases, "u%d" % k, stats, 0.08 if ctx.tier == "quick" else 0.04)
+        del cases
+    vacuity(seen_for_vacuity)
     ex = stats.pop("examples", {})
-    ctx.traces_validated += stats["resolved-unique"] + stats["resolved-ambiguous"]
     ctx.extra_cov["c05"] = {k: v for k, v in stats.items()}
     ctx.notes.append("sub-check accepts (programs layer A accepts, every name denoting exactly one definition, that the real "
                      "front end rejects; not C05 violations): %d%s" % (
                          stats["accepts:real-rejects-what-A-accepts"], (" e.g. " + json.dumps(ex["accepts"])[:900]) if "accepts" in ex else ""))
     ctx.notes.append("layer B vs real code: %d node(s) differ over all base programs; B => A candidates: %d node(s), "
                      "reproduced on the real code: %d" % (stats["b_nodes_differ"], stats["b_candidates"], stats["b_candidates_reproduced"]))
-    for k2, v in ex.items():
+    for k2, v in sorted(ex.items())[:12]:
         if k2 != "accepts":
-            ctx.notes.append("%s: e.g. %s" % (k2, json.dumps(v)[:500]))
+            ctx.notes.append("%s: e.g. %s" % (k2, json.dumps(v)[:700]))
     ctx.exhaustive = True
     return ctx.finish(
         rule="programs = every (include DAG, naming scheme, chain length, final kind, placement of the chain over the files, "
